@@ -24,6 +24,6 @@ PROP = dict(
                  "re-load = UnmarshalBinary of the bitmap's own WriteTo bytes, into a fresh bitmap or in place; the previous backing bytes may be overwritten once nothing was decoded from them any more"],
     tags=["groar", "gr2"],
     units=[
-        U("reads", "./roaring", "^TestVerifC02_Machine$", 1500, 60000, steps=40, env=_ENV),
+        U("reads", "./roaring", "^TestVerifC02_Machine$", 1500, 40000, steps=40, env=_ENV),
     ],
 )
